@@ -15,6 +15,7 @@ def K(prefix, name, clause, kind='P', tier='quick', fns=(), bound=None):
 
 PROPS = {}
 WINDOW_DRV = {'file': 'native/core_window.rs', 'attach': 'src/crypto/core.rs', 'test': 'replay_window_matches_the_property'}
+INIT_DRV = {'file': 'native/init_decoder.rs', 'attach': 'src/crypto/init.rs', 'test': 'handshake_decoder_is_total_and_accepts_only_signed_messages'}
 TABLE_MODEL = {'file': 'native/table_model.rs', 'attach': 'src/table.rs', 'test': 'table_matches_reference_model'}
 
 PROPS['C03'] = {
@@ -148,6 +149,10 @@ PROPS['C02'] = {
 IB = 'crypto::init::__verif_initblocks::'
 PROPS['C06'] = {
     'level': 'proof',
+    # "the lists reach the negotiation unaltered": the cipher list of a decoded ping / pong is the decoding of an algorithms part of the
+    # signed message (every entry with code 1..=3 in order, with its speed; plain iff an entry has code 0)
+    'verus': [{'unit': 'codec', 'rlimit': 100, 'fns': ['InitMsg::read_from', 'lemma_cur_adv', 'canary_.*']}],
+    'native_search': {r'codec::InitMsg.*': INIT_DRV},
     'kani': {
         'files': {'src/crypto/init.rs': ['kani/initblocks.rs.in']},
         'harnesses': [
@@ -162,7 +167,7 @@ PROPS['C06'] = {
         'a peer may send duplicate or more than three entries on the wire; lists with distinct ciphers only are covered',
         'NaN speeds are excluded (the property excludes them)',
     ],
-    'not_decided': ['"altering the lists in transit makes the handshake fail" rests on the signature check in InitMsg::read_from (out of reach, see C01)',
+    'not_decided': ['"altering the lists in transit makes the handshake fail": InitMsg::read_from accepts only correctly signed messages (C01, unit codec) and hands on exactly the decoded list; InitMsg::write_to (how the list is written) is not under contract, the native driver checks the write/read round trip of every subset in every order',
                     'Crypto::parse_algorithms (String handling: to_uppercase, Vec<String>) is not under contract'],
 }
 
@@ -196,13 +201,12 @@ CODEC_TRUSTED = [
     'std::net: SocketAddr is the transparent enum; SocketAddrV4/V6 are opaque records observed through ip/port accessors with constructor axioms (IPv6 flow info and scope id are not transmitted, the decoder sets them to 0)',
     'R6: SmallVec lists (AddrList, PeerList, RangeList, key bytes) are modelled by Vec (push / pop / with_capacity / iteration only); ring UnparsedPublicKey is an opaque byte container',
 ]
-INIT_DRV = {'file': 'native/init_decoder.rs', 'attach': 'src/crypto/init.rs', 'test': 'handshake_decoder_is_total_and_accepts_only_signed_messages'}
 CODEC_DRV = {'file': 'native/codec_model.rs', 'attach': 'src/messages.rs', 'test': 'node_info_codec_matches_the_format'}
 PROPS['C16'] = {
     'level': 'proof',
     'native_search': {r'codec::(NodeInfo|Range|Address|theorem_(peer|claims)).*': CODEC_DRV, r'codec::InitMsg.*': INIT_DRV},
     'level_text': 'Proof (Verus, real code, unbounded lengths, termination included): NodeInfo::{decode, decode_internal, decode_peer_list_part, decode_claims_part, read_addr_list, read_addr_list_inner}, Range::read_from, Address::{read_from, read_from_fixed} and RotationMessage::read_from against a format specification written from the wire format (value or error for EVERY byte sequence; unknown parts are skipped; only the length of the three fixed-size known parts is left unspecified when it disagrees with their content); the encoders NodeInfo::{encode_peer_list_part, encode_addrs_part}, Range/Address::write_to, RotationMessage::write_to against byte-exact output specifications; round-trip THEOREMS decode-spec(encode-spec(x)) == normalise(x) for peer lists (at most seven addresses per family, IPv6 first), claim lists and rotation messages. Proof (Kani, full domain): Range/Address codec. the encoder-side framing NodeInfo::encode_part (tag, length patched by seek-back, body of an FnOnce part writer - higher-order contract) and the parts block of NodeInfo::encode_internal (five closures): written bytes == enc_node(self); and the NodeInfo-level THEOREM decode-spec(enc_node(n)) == normalise(n). InitMsg::read_from (handshake) is proved total and signature-gated; its field values and InitMsg::write_to are NOT decided, nor are the three statements of encode_internal around the block (Cursor::new over MsgBuffer::buffer, set_length).',
-    'verus': [{'unit': 'codec', 'rlimit': 60}],
+    'verus': [{'unit': 'codec', 'rlimit': 100}],
     'kani': {
         'files': {'src/types.rs': ['kani/types.rs']},
         'harnesses': [
@@ -269,7 +273,7 @@ PROPS['C08'] = {
     'level': 'proof',
     'level_text': 'Proof for the per-peer receive path: MsgBuffer, CryptoCore::decrypt/encrypt (buffer geometry) and PeerCrypto::{handle_message, decrypt_message, encrypt_message, send_message} verbatim in Verus: for EVERY well-formed buffer (any length incl. 0, any content) and every state of the peer object every callee precondition (index bounds, arithmetic, assert!) is established, i.e. no panic. NodeInfo::decode and RotationMessage::read_from (and the Range/Address decoders under them) are total on EVERY byte sequence (unit codec: no panic, no overflow, every loop terminates, allocation bounded by the 16-bit part length). InitMsg::read_from, the decoder every datagram with the handshake marker reaches before anything is known about its sender, is total as well (same unit; Cursor<&[u8]> through the same reader contracts). The rest of the handshake path (InitState::handle_init after the decoder returned) is NOT decided.',
     'verus': [{'unit': 'buffer'}, {'unit': 'cloud', 'fns': ['GenericCloud::handle_net_message', 'GenericCloud::handle_message']},
-              {'unit': 'codec', 'rlimit': 60, 'safety_only': True, 'fns': ['Address::read_from.*', 'Range::read_from', 'NodeInfo::(read_addr_list.*|decode.*)', 'RotationMessage::read_from', 'InitMsg::read_from', 'MsgBuffer::.*', 'lemma_flag_fields', 'lemma_prepend2', 'lemma_cur_adv', 'canary_.*']}],
+              {'unit': 'codec', 'rlimit': 100, 'safety_only': True, 'fns': ['Address::read_from.*', 'Range::read_from', 'NodeInfo::(read_addr_list.*|decode.*)', 'RotationMessage::read_from', 'InitMsg::read_from', 'MsgBuffer::.*', 'lemma_flag_fields', 'lemma_prepend2', 'lemma_cur_adv', 'canary_.*']}],
     'kani': {
         'files': {'src/crypto/core.rs': ['kani/coreblocks.rs.in', 'kani/core.rs']},
         'harnesses': [
@@ -382,7 +386,7 @@ PROPS['C10'] = {
 PROPS['C01'] = {
     'level': 'proof',
     'level_text': 'PARTIAL - three of the four mechanisms of this property, as contracts on the real code (Verus): (1) InitMsg::read_from returns a message only if it carries an Ed25519 signature that is valid, under a key of the trusted list - the one selected by the salted hash in the first 8 bytes - over ALL bytes up to and including the end marker; for every byte sequence and every trusted list, with termination and memory safety. (2) InitState::handle_init, from its first statement up to the decoder call: when the decoder rejects, the error is returned with the handshake object and the buffer geometry unchanged ("without altering a handshake already in progress"). (3) the statements of GenericCloud::handle_net_message that treat a handshake datagram from an address without pending handshake: the responder object is stored only if it accepted that first message; otherwise no pending entry, no peer, nothing sent ("without creating a peer ... without any reply"). Ed25519 and SHA-256 are uninterpreted functions (unforgeability is the cipher assumption). NOT decided: that two nodes become peers EXACTLY when each trusts the other (needs the whole handshake: C05), mechanism (4) (payload of pong/peng must decrypt before success is reported), the stages after the decoder inside handle_init, lingering / pending handshake objects receiving the datagram (PeerCrypto::handle_message is an environment function at node level), key parsing and the trusted-list construction in Crypto::new.',
-    'verus': [{'unit': 'codec', 'rlimit': 60, 'fns': ['InitMsg::read_from', 'InitState::handle_init_until_decoded', 'MsgBuffer::.*', 'lemma_cur_adv', 'canary_.*']},
+    'verus': [{'unit': 'codec', 'rlimit': 100, 'fns': ['InitMsg::read_from', 'InitState::handle_init_until_decoded', 'MsgBuffer::.*', 'lemma_cur_adv', 'canary_.*']},
               {'unit': 'cloud', 'fns': ['GenericCloud::responder_block', 'GenericCloud::handle_net_message']},
               # "accepts its payload only from a party that proved possession": before the handshake produced a core, or plain mode was
               # negotiated, no non-handshake datagram is interpreted by the per-peer object (also while the handshake is pending)
